@@ -44,11 +44,13 @@ def _one(args):
     g = graph.Graph(r2.inits, r2.edges)
     if g.n_edges() == 0:
         raise MachineryError("no edges printed for " + tag)
-    walks = g.covering_walks(seed=ctx.seed, max_len=80)
+    # N <= 3: every transition; N = 4 (0.5 M transitions per instance): a seeded share of 120 k
+    limit = None if n <= 3 else 120000
+    walks = g.covering_walks(seed=ctx.seed, max_len=80, limit_edges=limit)
     covered = sum(len(w["steps"]) for w in walks)
     graph.write_behaviours(os.path.join(beh_dir, tag + ".jsonl"), walks,
                            {"N": n, "MinSucc": m, "ReadOnly": ro, "edges": g.n_edges(), "states": g.n_states()})
-    return r1, g.n_edges(), len(walks), covered
+    return r1, (g.n_edges() if limit is None else min(limit, g.n_edges())), len(walks), covered
 
 
 
